@@ -215,11 +215,11 @@ theorem dropLocals_exec (w : World) : w.dropLocals.exec = w.exec := by
     intro l w0; apply foldl_exec; intro _ _; rfl
   split
   · exact key _ _
-  · refine (foldl_exec _ ?_ _ _).trans (key _ _)
-    intro w a
-    split
-    · rfl
-    · exact tlsGet_exec _ _
+  · split
+    · split
+      · exact key _ _
+      · exact (tlsGet_exec _ _).trans (key _ _)
+    · exact key _ _
   · exact key _ _
 
 @[simp] theorem dropLocals_mt (w : World) :
